@@ -163,10 +163,47 @@ impl<'a> Session<'a> {
 }
 
 fn set_scale(q: &mut Quantizer, mask: u32) {
-    // forbid everything that is not in the mask; the last forbidden note must not empty the scale
+    build_scale(q, mask, 0)
+}
+
+/// reach the scale `mask` on a fresh quantizer through one of several edit histories (the result of a
+/// conversion must only depend on the scale, not on how it was reached)
+fn build_scale(q: &mut Quantizer, mask: u32, path: u32) {
+    let on: Vec<u8> = (0..12u8).filter(|k| mask & (1 << k) != 0).collect();
     let off: Vec<Note> = (0..12u8).filter(|k| mask & (1 << k) == 0).map(Note::from).collect();
-    if !off.is_empty() {
-        q.forbid(&off);
+    match path % 4 {
+        0 => {
+            // forbid the complement in one call
+            if !off.is_empty() {
+                q.forbid(&off);
+            }
+        }
+        1 => {
+            // forbid all twelve, ending with a note of the scale (which stays), then allow the rest
+            let keep = on[on.len() / 2];
+            let mut all: Vec<Note> = (0..12u8).filter(|k| *k != keep).map(Note::from).collect();
+            all.push(Note::from(keep));
+            q.forbid(&all);
+            let rest: Vec<Note> = on.iter().filter(|k| **k != keep).map(|k| Note::from(*k)).collect();
+            q.allow(&rest);
+        }
+        2 => {
+            // one note at a time, descending, with a redundant allow in between
+            for n in off.iter().rev() {
+                q.forbid(&[*n]);
+            }
+            q.allow(&[Note::from(on[0])]);
+        }
+        _ => {
+            // shrink to the lowest note of the scale, then grow again note by note
+            let lowest = on[0];
+            let mut all: Vec<Note> = (0..12u8).rev().filter(|k| *k != lowest).map(Note::from).collect();
+            all.push(Note::from(lowest));
+            q.forbid(&all);
+            for k in on.iter().skip(1) {
+                q.allow(&[Note::from(*k)]);
+            }
+        }
     }
 }
 
@@ -251,13 +288,18 @@ fn probe(s: &mut Session, mask: u32, uv: f64) {
         return;
     }
     let v = (uv / 1e6) as f32;
+    let path = (uv as u64 / 1_000_000) as u32 + mask;
     let r = guarded(|| {
         let mut q = Quantizer::new();
-        set_scale(&mut q, mask);
-        q.convert(v)
+        build_scale(&mut q, mask, path);
+        if mask_of(&q) != mask {
+            // the scale edit itself went wrong: report it as a conversion under the scale that resulted
+            return (mask_of(&q), q.convert(v));
+        }
+        (mask, q.convert(v))
     });
     match r {
-        Ok(c) => {
+        Ok((mask, c)) => {
             let u = units(v);
             s.out.line(&format!(
                 "{{\"op\":\"run\",\"m\":{},\"lo\":{},\"hi\":{},\"n\":{},\"sk\":{},\"fmin\":{},\"fmax\":{},\"eu\":{}}}",
